@@ -13,6 +13,7 @@ from collections.abc import Mapping
 from typing import cast, Any
 import functools
 import binascii
+import io
 import logging
 import struct
 import json
@@ -160,7 +161,9 @@ class SuitObject(PrettyPrintHelperMixin):
         # Ensure that cbor2.loads() will not consume all the available memory
         SuitObject.validate_cbor(cbstr)
         try:
-            data = cbor2.loads(cbstr)
+            with io.BytesIO(cbstr) as stream:
+                data = cbor2.load(stream)
+                trailing_data = len(cbstr) - stream.tell()
         except ImportError as err:
             # Can occur due to possible incompatibilities in packages between virtual environment and system scope
             # (seen on Windows, where cbor2 was installed globally and in virtual environment)
@@ -179,6 +182,9 @@ class SuitObject(PrettyPrintHelperMixin):
             #   d81e84ffffffff -> SystemError
             #   d8234129 -> re.error
             raise ValueError("Cannot deserialize data!")
+        if trailing_data:
+            # A shorter item followed by other bytes is not the encoding of that item (cbor2.loads ignores the rest)
+            raise ValueError(f"Cannot deserialize data: {trailing_data} bytes after the end of the CBOR item!")
         SuitObject.reject_shared_values(data)
         return data
 
